@@ -244,10 +244,149 @@ def c02(tier, rng):
     return out
 
 
-GENERATORS = {'C01': c01, 'C02': c02}
+# ------------------------------------------------------------------ C03 -----
+
+MSGS = ['', 'boom', 'h\u00e9llo w\u00f6rld \u2603', 'x' * 4096]
+
+
+def env(id, m=None, b=None, st=None, t=None, r=None, src='srv', dst='cli1', md=None, noh=False, braw=None, c=0):
+    e = dict(id=id)
+    if noh:
+        e['noh'] = True
+    else:
+        e.update(m=m or '/verif.Svc/Unary', src=src, dst=dst)
+    if md:
+        e['md'] = md
+    if c:
+        e['c'] = c
+    if b is not None:
+        e['b'] = b
+    if braw is not None:
+        e['braw'] = braw
+    if st is not None:
+        e['st'] = dict(code=st[0], msg=st[1]) if len(st) < 3 else dict(code=st[0], msg=st[1], det=st[2])
+    if t is not None:
+        e['t'] = t
+    if r:
+        e['r'] = r
+    return e
+
+
+METH = {'unary': '/verif.Svc/Unary', 'bidi': '/verif.Svc/Bidi', 'cs': '/verif.Svc/CS', 'ss': '/verif.Svc/SS'}
+
+
+def c03(tier, rng, fam='C03'):
+    out = []
+    codes = list(range(0, 17))
+    eks = ['status', 'wrapped', 'plain', 'ctxcancel', 'ctxdl']
+    # unary: every code / error kind
+    for code in codes:
+        for ek in (eks if tier != 'quick' else (['status'] if code % 3 else eks)):
+            if code == 0 and ek in ('status', 'wrapped'):
+                ek2, code2 = '', 0
+            else:
+                ek2, code2 = ek, code if ek in ('status', 'wrapped') else 2
+            if code == 0 and ek in ('plain', 'ctxcancel', 'ctxdl') or code != 0 and ek in ('status', 'wrapped') or code == 0:
+                msg = rng.choice(MSGS) if tier != 'quick' else MSGS[code % len(MSGS)]
+                det = rng.choice([0, 0, 1, 3]) if ek2 in ('status', 'wrapped') else 0
+                b = B(fam, 'unary code=%d ek=%s det=%d' % (code2, ek2 or 'nil', det), ser=bool(code % 2))
+                b.step('ucall', c=1, pay='q', hp=[ret(code=code2, msg=msg, ek=ek2 if ek2 != 'status' else '', det=det, pay='rep')])
+                out.append(b.q().done())
+    # streams: error at each position
+    for kind in ('bidi', 'cs', 'ss'):
+        for pos in (0, 1, 2):
+            for code in (codes[1:] if tier != 'quick' else [1, 2, 5, 13, 16]):
+                for ek in (['status'] if tier == 'quick' and code != 5 else eks):
+                    msg = MSGS[(code + pos) % len(MSGS)]
+                    det = (code + pos) % 4 if ek in ('status', 'wrapped') else 0
+                    r = ret(code=code if ek in ('status', 'wrapped') else 2, msg=msg or 'm',
+                            ek='' if ek == 'status' else ek, det=det)
+                    n = 1 if kind == 'ss' else 2
+                    if pos == 0:
+                        hp = [r]
+                    elif pos == 1:
+                        hp = [dict(o='recv')] + ([dict(o='send', pay='s0')] if kind != 'cs' else []) + [r]
+                    else:
+                        hp = [dict(o='drain')] + ([dict(o='send', pay='s0'), dict(o='send', pay='s1')] if kind != 'cs' else []) + [r]
+                    b = B(fam, '%s err pos=%d code=%d ek=%s' % (kind, pos, code, ek), ser=True)
+                    b.step('sopen', c=1, kind=kind, hp=hp)
+                    for i in range(n):
+                        b.step('send', c=1, pay='c%d' % i)
+                    b.step('close', c=1)
+                    b.step('recv', c=1, n=4)
+                    b.step('trl', c=1)
+                    out.append(b.q().done())
+    # a non-nil error whose status code is OK is rewritten (Internal on streams)
+    for kind in ('bidi', 'cs', 'ss'):
+        b = B(fam, '%s okerr' % kind, ser=True)
+        b.step('sopen', c=1, kind=kind, hp=[dict(o='drain'), ret(ek='okerr', msg='odd')])
+        b.step('send', c=1, pay='x').step('close', c=1).step('recv', c=1, n=2).step('trl', c=1)
+        out.append(b.q().done())
+    # foreign peers: raw server replying to a real client
+    for shape in ('okstatus+body', 'nostatus+body', 'status-no-tmd', 'err+body', 'okstatus-nobody'):
+        b = B(fam, 'foreign unary %s' % shape, rawsrv=True, ser=True)
+        b.step('ucall', c=1, pay='q')
+        if shape == 'okstatus+body':
+            e = env(1, b='rep', st=(0, 'OK'), t=[])
+        elif shape == 'nostatus+body':
+            e = env(1, b='rep', t=[])
+        elif shape == 'status-no-tmd':
+            e = env(1, st=(5, 'nf'), t=[])
+        elif shape == 'err+body':
+            e = env(1, b='rep', st=(7, 'denied'), t=[])
+        else:
+            e = env(1, st=(0, 'OK'), t=[])
+        b.step('inj', dir='s2c', env=e)
+        out.append(b.q().done())
+    for kind in ('bidi', 'ss', 'cs'):
+        for pos in (0, 1):
+            for shape in ('reset', 'reset-nostatus-notrailer', 'trailer-nostatus', 'err-status'):
+                b = B(fam, 'foreign %s %s pos=%d' % (kind, shape, pos), rawsrv=True, ser=True)
+                b.step('sopen', c=1, kind=kind)
+                b.step('send', c=1, pay='x')
+                m = METH[kind]
+                if pos == 1:
+                    b.step('inj', dir='s2c', env=env(1, m=m, b='r0'))
+                    b.step('recv', c=1)
+                if shape == 'reset':
+                    e = env(1, m=m, t=[], r='RST_STREAM')
+                elif shape == 'reset-nostatus-notrailer':
+                    e = env(1, m=m, r='RST_STREAM')
+                elif shape == 'trailer-nostatus':
+                    e = env(1, m=m, t=[])
+                else:
+                    e = env(1, m=m, st=(9, 'precondition'), t=[])
+                b.step('inj', dir='s2c', env=e)
+                b.step('recv', c=1)
+                b.step('trl', c=1)
+                out.append(b.q().done())
+    # the server's reset for a late body must not overtake the failing handler's trailer
+    reps = 4 if tier == 'quick' else 32
+    for kind in ('bidi', 'cs'):
+        for r_ in range(reps):
+            b = B(fam, 'late-body vs trailer %s #%d' % (kind, r_), ser=True)
+            b.step('sopen', c=1, kind=kind, hp=[dict(o='recv')])
+            b.step('send', c=1, pay='m1')
+            b.step('arm', gate='srv.writer.window', id=1, n=1)
+            b.step('hop', c=1, h=ret(code=3, msg='bad input'))
+            b.step('send', c=1, pay='m2')                 # arrives after the handler has gone
+            b.step('rel', gate='srv.writer.window')
+            b.step('recv', c=1, n=2)
+            b.step('trl', c=1)
+            out.append(b.q().done())
+    return out
+
+
+GENERATORS = {'C01': c01, 'C02': c02, 'C03': c03}
+
+
+def _late():
+    from . import gen2
+    GENERATORS.update({'C07': gen2.c07, 'C09': gen2.c09, 'C10': gen2.c10, 'C11': gen2.c11, 'C12': gen2.c12, 'C13': gen2.c13})
 
 
 def generate(prop, tier, seed):
+    _late()
     rng = random.Random(seed * 1000003 + int(prop[1:]))
     scens = GENERATORS[prop](tier, rng)
     for i, s in enumerate(scens):
